@@ -1,6 +1,6 @@
 (** C18 — the generated tab_list function lists the documented functions and
     is quote-safe. *)
-From CRS Require Import Lib.Bytes Lib.ShLex Model.FuncList Proofs.FuncListProofs.
+From CRS Require Import Lib.Bytes Lib.Sort Lib.ShLex Model.FuncList Proofs.FuncListProofs Proofs.SortProofs Proofs.FuncListRows.
 Open Scope N_scope.
 
 (** The escaping is sound for EVERY byte string: single-quoting the escaped
@@ -26,3 +26,22 @@ Example c18_example :
 " in
   length (rows p) = 3%nat /\ parse_func (gen_func_list p) = Some (rows p).
 Proof. vm_compute. split; reflexivity. Qed.
+
+(** What the rows ARE, for every payload: the formatted cells - the listing
+    function's own row plus one per '# TABDOC:' line (first word as name, the
+    remainder as description, [Model/FuncList.doc_cell]) - sorted in byte order
+    with duplicates removed; membership, strict order (hence one row per
+    DISTINCT line) and independence of the order and multiplicity of the tagged
+    lines follow. *)
+Theorem c18_rows_spec : forall s,
+  rows s = compact (sort_bytes (map (fmt_row (col_width (cells s))) (cells s))).
+Proof. exact rows_spec. Qed.
+Theorem c18_rows_members : forall s r,
+  In r (rows s) <-> exists c, In c (cells s) /\ r = fmt_row (col_width (cells s)) c.
+Proof. exact rows_members. Qed.
+Theorem c18_rows_strictly_sorted : forall s, Sorted.StronglySorted lt_p (rows s).
+Proof. exact rows_strictly_sorted. Qed.
+Theorem c18_rows_order_independent : forall s1 s2,
+  col_width (cells s1) = col_width (cells s2) ->
+  (forall c, In c (cells s1) <-> In c (cells s2)) -> rows s1 = rows s2.
+Proof. exact rows_order_independent. Qed.
